@@ -49,6 +49,8 @@ func Overlaps(ops []porcupine.Operation) int {
 
 // CheckLin runs porcupine with a timeout: Ok / Illegal / Unknown.
 func CheckLin(model porcupine.Model, ops []porcupine.Operation, timeout time.Duration) porcupine.CheckResult {
+	Progress.Add(1)
+	defer Progress.Add(1)
 	res, _ := porcupine.CheckOperationsVerbose(model, ops, timeout)
 	return res
 }
